@@ -54,6 +54,11 @@ def out_of_domain_values(kind, row, rng):
     vals.append(("bytes-addr-fam0", b"\x00\x00\x0a\x00\x00\x01"))
     vals.append(("bytes-addr-fam3", b"\x00\x03\x0a\x00\x00\x01"))
     vals.append(("bytes-addr-1byte", b"\x01"))
+    for fam in (1, 2):
+        for w in range(0, 21):
+            if (fam, w) in ((1, 4), (2, 16)):
+                continue
+            vals.append(("bytes-addr-fam%d-width%d" % (fam, w), fam.to_bytes(2, "big") + bytes((7 * i + 32) & 0xff for i in range(w))))
     if kind == "Enumerated":
         vs = row["values"]
         for v in vs[:3] + vs[-2:]:
